@@ -320,7 +320,10 @@ impl<'a, 'tcx> FnCx<'a, 'tcx> {
             out.push(']');
             return;
         }
-        let mut s = with_no_trimmed_paths!(format!("{}", c));
+        let mut s = match c {
+            Const::Unevaluated(uv, _) if uv.promoted.is_none() => format!("const {}", nice_name(self.tcx, uv.def)),
+            _ => with_no_trimmed_paths!(format!("{}", c)),
+        };
         if s.len() > 500 {
             let mut cut = 500;
             while !s.is_char_boundary(cut) {
@@ -912,6 +915,21 @@ impl Callbacks for Cb {
                 DefKind::Impl { of_trait } => {
                     dump_impl(tcx, did, of_trait, &mut out);
                     nimpl += 1;
+                }
+                DefKind::Const { .. } => {
+                    if tcx.generics_of(did).is_empty() {
+                        if let Ok(val) = tcx.const_eval_poly(did) {
+                            let ty = tcx.type_of(did).instantiate_identity().skip_norm_wip();
+                            let c = Const::Val(val, ty);
+                            let mut v = with_no_trimmed_paths!(format!("{}", c));
+                            v.truncate(300);
+                            out.push_str("{\"k\":\"const\",\"name\":");
+                            esc(&mut out, &nice_name(tcx, did));
+                            out.push_str(",\"value\":");
+                            esc(&mut out, &v);
+                            out.push_str("}\n");
+                        }
+                    }
                 }
                 _ => {}
             }
